@@ -5,6 +5,7 @@ import (
 	"fmt"
 	"os"
 	"path/filepath"
+	"regexp"
 	"sort"
 	"strings"
 	"time"
@@ -80,8 +81,14 @@ func (c *Ctx) F(fn *ssa.Function) *FuncFacts {
 	return f
 }
 
+var instrName = regexp.MustCompile(`@t\d+`)
+
+// Stable removes SSA register names from a term so that it can be part of an
+// obligation key (keys must survive unrelated edits of the function).
+func Stable(s string) string { return instrName.ReplaceAllString(s, "") }
+
 func (c *Ctx) add(st Status, id, key, rule string, fn *ssa.Function, at ssa.Instruction, detail string, facts FactSet) *Obligation {
-	o := &Obligation{ID: id, Key: id + ":" + key, Rule: rule, Status: st, Detail: detail}
+	o := &Obligation{ID: id, Key: id + ":" + Stable(key), Rule: rule, Status: st, Detail: detail}
 	if fn != nil {
 		o.Func = FuncName(fn)
 		c.Analysed[o.Func] = true
